@@ -17,8 +17,10 @@ import (
 	"github.com/specterops/dawgs/cardinality"
 	"github.com/specterops/dawgs/container"
 	"github.com/specterops/dawgs/graph"
+	"github.com/specterops/dawgs/query"
 	"github.com/specterops/dawgs/verifsim/simrt"
 
+	"verifharness/simdb"
 	"verifharness/simh"
 )
 
@@ -42,7 +44,7 @@ type WL struct {
 }
 
 func gen(r *rand.Rand) WL {
-	w := WL{Container: []string{"csr", "adj"}[r.IntN(2)]}
+	w := WL{Container: []string{"csr", "adj", "csr", "adj", "db", "dball"}[r.IntN(6)]}
 	n := 1 + r.IntN(8)
 	dagish := r.IntN(3) > 0
 	if dagish {
@@ -106,14 +108,14 @@ func gen(r *rand.Rand) WL {
 		return w.Nodes[r.IntN(n)]
 	}
 	for i := 0; i < nq; i++ {
-		q := Q{K: []string{"canreach", "reach", "reach", "slice", "or", "xor"}[r.IntN(6)], A: pick(), Dir: []string{"out", "in"}[r.IntN(2)]}
+		q := Q{K: []string{"canreach", "reach", "reach", "slice", "or", "xor", "canreach", "reach", "reach", "slice", "or", "xor", "compsearch", "creach"}[r.IntN(14)], A: pick(), Dir: []string{"out", "in"}[r.IntN(2)]}
 		if dagish && r.IntN(3) > 0 {
 			q.K, q.Dir = "reach", "out"
 		}
-		if !dagish && r.IntN(6) == 0 {
+		if !dagish && r.IntN(6) == 0 && q.K != "compsearch" && q.K != "creach" {
 			q.Dir = "both"
 		}
-		if q.K == "canreach" {
+		if q.K == "canreach" || q.K == "compsearch" {
 			q.B = pick()
 		}
 		if q.K == "or" || q.K == "xor" {
@@ -135,6 +137,52 @@ func gen(r *rand.Rand) WL {
 		}
 	}
 	return w
+}
+
+// edgeKind: relationships of a database-backed workload carry one of two kinds; the reachability
+// cache is then fetched for kind K0 only (the filter) or for both.
+func edgeKind(e [2]uint64) string {
+	if (e[0]+2*e[1])%3 == 0 {
+		return "K1"
+	}
+	return "K0"
+}
+
+// effective is the graph a database-backed workload asks about: the relationships that pass the kind
+// filter and the nodes they touch (a fetched graph has no isolated nodes).
+func effective(w WL) WL {
+	if w.Container != "db" && w.Container != "dball" {
+		return w
+	}
+	e := w
+	e.Nodes, e.Edges = nil, nil
+	seen := map[uint64]bool{}
+	for _, ed := range w.Edges {
+		if w.Container == "db" && edgeKind(ed) != "K0" {
+			continue
+		}
+		e.Edges = append(e.Edges, ed)
+		for _, n := range ed {
+			if !seen[n] {
+				seen[n] = true
+				e.Nodes = append(e.Nodes, n)
+			}
+		}
+	}
+	return e
+}
+
+func buildDB(w WL) *simdb.DB {
+	db := simdb.New()
+	db.DefaultGraph = "g"
+	g := db.Graph("g")
+	for _, n := range w.Nodes {
+		g.AddNode(&simdb.Node{ID: graph.ID(n), Kinds: []string{"N"}, Props: map[string]any{}})
+	}
+	for i, ed := range w.Edges {
+		g.AddRel(&simdb.Rel{ID: graph.ID(1000 + i), Start: graph.ID(ed[0]), End: graph.ID(ed[1]), Kind: edgeKind(ed), Props: map[string]any{}})
+	}
+	return db
 }
 
 func build(w WL) container.DirectedGraph {
@@ -342,12 +390,39 @@ func exec(t *testing.T, w WL, cfg simrt.Config) simh.Outcome {
 	)
 	res := simrt.Run(t, cfg, func(s *simrt.Sim) {
 		s.Spawn(func() {
-			dg := build(w)
-			if d := checkSCC(w, algo.NewComponentGraph(context.Background(), dg)); d != "" {
+			var (
+				dg container.DirectedGraph
+				rc *algo.ReachabilityCache
+			)
+			if w.Container == "db" || w.Container == "dball" {
+				// the graph comes out of a database (container.FetchDirectedGraph, algo.FetchFilteredReachabilityCache)
+				db := buildDB(w)
+				kinds := []graph.Kind{graph.StringKind("K0")}
+				if w.Container == "dball" {
+					kinds = append(kinds, graph.StringKind("K1"))
+				}
+				var err error
+				if dg, err = container.FetchDirectedGraph(context.Background(), db, query.KindIn(query.Relationship(), kinds...)); err != nil {
+					bad, class = "FetchDirectedGraph: "+err.Error(), "oracle:fetch"
+					return
+				}
+				if rc, err = algo.FetchFilteredReachabilityCache(context.Background(), db, kinds...); err != nil {
+					bad, class = "FetchFilteredReachabilityCache: "+err.Error(), "oracle:fetch"
+					return
+				}
+				w = effective(w)
+				counters["database_backed_graphs"]++
+			} else {
+				dg = build(w)
+			}
+			cg := algo.NewComponentGraph(context.Background(), dg)
+			if d := checkSCC(w, cg); d != "" {
 				bad, class = d, "oracle:scc"
 				return
 			}
-			rc := algo.NewReachabilityCache(context.Background(), dg, w.Cap)
+			if rc == nil {
+				rc = algo.NewReachabilityCache(context.Background(), dg, w.Cap)
+			}
 			for qi, q := range w.Queries {
 				if q.Dir == "both" {
 					// no search defines this direction in the statement; what is owed is that the answer does not
@@ -365,6 +440,37 @@ func exec(t *testing.T, w WL, cfg simrt.Config) simh.Outcome {
 				truth := bfs(w, q.A, q.Dir)
 				var got, want []uint64
 				switch q.K {
+				case "compsearch":
+					// the one-sided component search and the container's own breadth-first reach are reachability
+					// answers too
+					ca, okA := cg.ContainingComponent(q.A)
+					cb, okB := cg.ContainingComponent(q.B)
+					if !okA || !okB {
+						continue
+					}
+					if g := cg.ComponentSearch(ca, cb, gdir(q.Dir)); g != truth[q.B] {
+						bad, class = fmt.Sprintf("query %d: ComponentSearch(component of %d, component of %d, %s) = %v, breadth-first search says %v", qi, q.A, q.B, q.Dir, g, truth[q.B]), "oracle:reach"
+						return
+					}
+					answers = append(answers, fmt.Sprintf("compsearch(%d,%d,%s)", q.A, q.B, q.Dir))
+					continue
+				case "creach":
+					if !truth[q.A] {
+						continue // not a node of the graph
+					}
+					exp := map[uint64]bool{}
+					for _, e := range w.Edges {
+						from, to := e[0], e[1]
+						if q.Dir == "in" {
+							from, to = to, from
+						}
+						if from == q.A {
+							for v := range bfs(w, to, q.Dir) {
+								exp[v] = true
+							}
+						}
+					}
+					got, want = sorted(container.Reach(dg, q.A, gdir(q.Dir)).Slice()), keys(exp)
 				case "canreach":
 					exp := truth[q.B]
 					for rep := 0; rep < max(1, q.N); rep++ {
